@@ -35,7 +35,7 @@ Lemma pe_step : forall f d l acc, parse_elems (S f) d l acc =
     | POk v rr =>
       match trim rr with
       | [] => PErr 4
-      | c2 :: r2 => if c2 =? 93 then POk (JArr (rev (v :: acc))) r2
+      | c2 :: r2 => if c2 =? 93 then POk (JArr (lrev (v :: acc))) r2
                     else if c2 =? 44 then parse_elems f d r2 (v :: acc)
                     else PErr 5
       end
@@ -154,7 +154,7 @@ Proof.
     change (c :: r0 ++ pc ++ 93 :: rest) with ((c :: r0) ++ pc ++ 93 :: rest). rewrite <- Ew.
     rewrite (He kk d inner (pc ++ 93 :: rest) f Hwe Hd).
     + rewrite trim_ws_app by exact Hpc. rewrite trim_nonws by reflexivity.
-      cbn [N.eqb Pos.eqb]. cbn [rev map]. try rewrite <- app_assoc. reflexivity.
+      cbn [N.eqb Pos.eqb]. rewrite lrev_rev. cbn [rev map]. try rewrite <- app_assoc. reflexivity.
     + apply follow_ws_app; [exact Hpc|auto].
     + unfold fuel_ok. rewrite Ew. lens. lia.
   - (* an element followed by ", next" *)
